@@ -62,6 +62,11 @@ var pipes = map[string]pipeSpec{
 		Script: func(a *attempt) string {
 			return "var a = stream|from().measurement('m1')\nvar b = stream|from().measurement('m2')\na|join(b).as('a','b').tolerance(2s)|log().prefix('j')"
 		}},
+	// batch task: query node (own goroutine, ticker every 20ms) -> influxDBOut
+	"batch": {Batch: true, Buf: 1, Counted: true, Meas: []string{"m"}, Outs: []outSpec{{"db", "influx", "m"}},
+		Script: func(a *attempt) string {
+			return `batch|query('SELECT seq FROM "db"."rp"."m"').period(1s).every(20ms)` + influxOut + `.buffer(1)`
+		}},
 	// UDF node (in-process mirror agent over pipes) in the middle
 	"udf": {Counted: true, Meas: []string{"m"}, Outs: []outSpec{{"s", "log", "m"}},
 		Script: func(a *attempt) string { return `stream|from().measurement('m')@mirror()|log().prefix('s')` }},
@@ -99,9 +104,10 @@ var stallsOf = map[string][]stallSpec{
 	"union":     {{"sink:u", 5}, {"run:union", 3}, {"emit:union:2", 3}, {"run:log", 4}},
 	"join":      {{"sink:j", 5}, {"run:join", 3}},
 	"udf":       {{"sink:s", 4}, {"run:mirror", 2}, {"emit:mirror:3", 2}, {"run:log", 3}},
+	"batch":     {{"query", 0}, {"sink:db", 3}, {"run:influxdb_out", 2}},
 }
 
-var pipeOrder = []string{"influx1", "influx3", "influxbig", "chain", "alert", "log", "post", "loopback", "fork", "union", "join", "udf"}
+var pipeOrder = []string{"influx1", "influx3", "influxbig", "chain", "alert", "log", "post", "loopback", "fork", "union", "join", "udf", "batch"}
 
 // bigN: a backlog of more than one edge buffer that still fits in front of the stall
 // (source edge 1000 + 1001 per node in front of the stalled one).
@@ -121,6 +127,9 @@ func scenarios(r *rt.Run) ([]scen, int) {
 		if p == "post" {
 			sizes = []int{20}
 		}
+		if p == "batch" {
+			sizes = []int{5} // one batch per 20ms tick of the query node
+		}
 		for _, api := range allStops {
 			for _, n := range sizes {
 				// free running: nothing is stalled, the stop races with the pipeline
@@ -131,7 +140,7 @@ func scenarios(r *rt.Run) ([]scen, int) {
 			}
 		}
 		// more than one edge buffer in flight
-		if p == "post" {
+		if p == "post" || p == "batch" {
 			continue
 		}
 		for i, st := range stallsOf[p] {
@@ -210,7 +219,7 @@ func scenarios(r *rt.Run) ([]scen, int) {
 		// seeded random scenarios: random backlog sizes and stall depths
 		for i := 0; i < 400; i++ {
 			p := pipeOrder[r.Rand.Intn(len(pipeOrder))]
-			if p == "post" {
+			if p == "post" || p == "batch" {
 				continue
 			}
 			st := stallsOf[p][r.Rand.Intn(len(stallsOf[p]))]
